@@ -3,6 +3,7 @@
 from __future__ import annotations
 
 import numpy as np
+from scipy import sparse
 from hypothesis import strategies as st
 
 import pyttb as ttb
@@ -11,7 +12,7 @@ from .. import gen, ref
 from ..core import cell
 from . import _c02_common as cm
 
-VEC_PATTERNS = ("all", "all", "some", "some", "one", "none")
+VEC_PATTERNS = cm.VEC_PATTERNS
 
 
 def _junk(kind, shape, ncols=None):
@@ -90,7 +91,8 @@ for _k, (_q, _t) in {"tensor": (500, 10000), "sptensor": (600, 12000), "ktensor"
     cell(f"C02/ttv/{_k}", strategy=_ttv_strategy(_k), quick=_q, thorough=_t, shards=(2, 8))(ttv_body)
 
 
-ENUM_HOLDERS = ("tensor", "sptensor", "sptensor-thin", "ktensor", "ttensor-dense", "ttensor-sparse", "sumtensor")
+ENUM_HOLDERS = ("tensor", "sptensor", "sptensor-thin", "sptensor-one", "sptensor-empty", "ktensor", "ttensor-dense",
+                "ttensor-sparse", "sumtensor")
 
 
 def _enum_shapes(tier):
@@ -139,7 +141,13 @@ def _ttm_strategy(kind):
             flat = gen._pattern_values(draw, J * shape[m], pat, vk)
             # stored as the (J, I_m) matrix of the definition, row-major nested list
             mats.append([flat[r * shape[m]:(r + 1) * shape[m]] for r in range(J)])
-        return dict(X=h, des=des, mats=mats, transpose=transpose,
+        # scipy sparse matrices are accepted by the dense and sparse kernels; for a sparse tensor they are the
+        # only way to a sparse product (and so to the 50 % switch of sptensor.ttm)
+        mkind = "ndarray"
+        if kind in ("tensor", "sptensor"):
+            mkind = draw(st.sampled_from(["ndarray", "ndarray", "coo", "csr"] if kind == "sptensor" else
+                                         ["ndarray", "ndarray", "ndarray", "coo"]))
+        return dict(X=h, des=des, mats=mats, transpose=transpose, mkind=mkind,
                     junk=draw(st.sampled_from(["empty", "wrong", "right"])))
 
     return s
@@ -156,6 +164,11 @@ def ttm_body(ctx, case):
     mats = {m: np.array(M, dtype=float).reshape(len(M), shape[m]) for m, M in zip(des["sel"], case["mats"])}
     # what is handed to pyttb: the matrix itself, or its transpose together with transpose=True
     passed = {m: (np.ascontiguousarray(M.T) if transpose else M) for m, M in mats.items()}
+    mkind = case.get("mkind", "ndarray")
+    if mkind == "coo":
+        passed = {m: sparse.coo_matrix(M) for m, M in passed.items()}
+    elif mkind == "csr":
+        passed = {m: sparse.csr_matrix(M) for m, M in passed.items()}
     junk = _junk(case.get("junk", "empty"), shape, ncols=2)
     arg, kw = cm.call_args(des, N, passed, junk)
     expect = cm.ref_ttm(A, mats)
@@ -164,7 +177,7 @@ def ttm_body(ctx, case):
     nonsquare = any(M.shape[0] != M.shape[1] for M in mats.values())
     ctx.nt = cm.designation_nontrivial(des, shape) and nonconst and nonsquare and bool(np.any(expect != 0))
     ctx.label(*cm.holder_labels(h), *cm.designation_labels(des, N), cm.fill_label(expect),
-              "transpose" if transpose else "plain", "nonsquare" if nonsquare else "square")
+              "transpose" if transpose else "plain", "nonsquare" if nonsquare else "square", "matrix-" + mkind)
     with ctx.sut(f"{kind}.ttm"):
         R = X.ttm(arg, transpose=transpose, **kw)
     ctx.label(cm.result_kind(R))
@@ -181,12 +194,14 @@ for _k, (_q, _t) in {"tensor": (500, 10000), "sptensor": (500, 10000), "ttensor"
 def _enum_ttm(tier):
     for sh in _enum_shapes(tier):
         N = len(sh)
-        for hk in ("tensor", "sptensor", "sptensor-thin", "ttensor-dense", "ttensor-sparse"):
+        for hk in ("tensor", "sptensor", "sptensor-thin", "sptensor-one", "sptensor-empty", "ttensor-dense",
+                   "ttensor-sparse"):
             h = cm.fixed_holder(hk, sh, salt=len(sh) + 1)
             for i, des in enumerate(cm.all_designations(N)):
                 for transpose in (False, True):
                     mats = [cm.fixed_matrix(1 + (m + i) % 3, sh[m], m + 2) for m in des["sel"]]
-                    yield dict(X=h, des=des, mats=mats, transpose=transpose, junk=("empty", "wrong", "right")[i % 3])
+                    yield dict(X=h, des=des, mats=mats, transpose=transpose, junk=("empty", "wrong", "right")[i % 3],
+                               mkind="coo" if hk.startswith("sptensor") and i % 2 else "ndarray")
 
 
 @cell("C02/ttm/enumerated", enum=_enum_ttm, shards=(8, 16))
